@@ -1149,8 +1149,9 @@ def itemstash_rules(fb, R):
                 if ok:
                     offv = ov['d']
                     oi = U.scn(fn, U.local_init(fn, offv))
-                    ok = oi is not None and oi.get('k') == 'call' and oi.get('rcls') == ITEMSTASH and oi.get('args') \
-                        and fn.params and fn.params[0]['d'] in U.vars_in(fn, oi['args'][0])
+                    ok = oi is not None and oi.get('k') == 'call' and oi.get('args') and fn.params \
+                        and fn.params[0]['d'] in U.vars_in(fn, oi['args'][0]) \
+                        and (oi.get('rcls') == ITEMSTASH or (oi.get('op') == '[]' and oi.get('recv') is not None and fn.is_this_member(oi['recv'], idx_f)))
         R.check(ok, r1, key + '#marks-the-handles-item-removed', fn.site,
                 'remove_item must call set_removed(true) on the buffer item found at the offset stored for its handle, on every path')
         asg = [n for n in fn.all_nodes() if n.get('k') == 'assign' and n.get('op') == '=' and (U.scn(fn, n['lhs']) or {}).get('d') == offv and offv is not None]
@@ -1329,19 +1330,24 @@ def itemstash_rules(fb, R):
         ops = counter_ops(fn, live)
         ok = len(ops) == 1 and ops[0].get('op') == '++' and U.must_pass(fn, fn.entry, [ops[0]['id']]) is None
         R.check(ok, r3, key + '#live-count-incremented', fn.site, 'add_item must ++%s exactly once on every path' % live)
-    for name in ('get_item_offset', 'get_item_offset_ref'):
-        for fn in byname.get(name, []):
-            accs = [(a, c, i) for (a, c, i) in U.vector_accesses(fb, fn) if fn.is_this_member(c, idx_f)
-                    and not any(fn.nodes[x].get('noret') or fn.nodes[x].get('q') == '__assert_fail' for x in fn.subtree(a['id']))]
-            live_accs = []
-            for (a, c, i) in accs:
-                x = U.scn(fn, i)
-                good = x is not None and x.get('k') == 'binop' and x.get('op') == '-' and fn.const_value(x['rhs']) == 1 \
-                    and fn.params and (fn.root_var(x['lhs']) or (None, None))[:2] == ('var', fn.params[0]['d'])
-                live_accs.append(good)
-            rets = _returns(fn)
-            ok = bool(live_accs) and all(live_accs) and len(rets) == 1
-            R.check(ok, r3, fn.q + '#slot-is-handle-value-minus-one', fn.site, '%s must read %s[handle.value - 1] (handles are 1-based slot numbers)' % (fn.q, idx_f))
+    # lookups by role: every ItemStash method that takes a handle and indexes the index vector (helpers or inlined into their callers)
+    nlook = 0
+    for fn in fns:
+        hp = [p_ for p_ in fn.params if p_['tC'].replace('const ', '').strip().rstrip('&').strip().endswith('handle_type')]
+        if not hp:
+            continue
+        accs = [(a, c, i) for (a, c, i) in U.vector_accesses(fb, fn) if fn.is_this_member(c, idx_f)]
+        if not accs:
+            continue
+        nlook += 1
+        good = True
+        for (a, c, i) in accs:
+            x = U.scn(fn, i)
+            good = good and x is not None and x.get('k') == 'binop' and x.get('op') == '-' and fn.const_value(x['rhs']) == 1 \
+                and (fn.root_var(x['lhs']) or (None, None))[:2] == ('var', hp[0]['d'])
+        R.check(good, r3, fn.q + '#slot-is-handle-value-minus-one', fn.site, '%s must read %s[handle.value - 1] (handles are 1-based slot numbers)' % (fn.q, idx_f))
+    if nlook == 0:
+        R.broken('ItemStash: no method that resolves a handle through %s found' % idx_f)
     for fn in byname.get('clear', []):
         c1 = [n for n in fn.all_nodes() if n.get('k') == 'call' and n.get('q') == 'osmium::memory::Buffer::clear' and fn.is_this_member(n.get('recv'), buf_f)]
         c2 = [n for n in fn.all_nodes() if n.get('k') == 'call' and n.get('q') == 'std::vector::clear' and fn.is_this_member(n.get('recv'), idx_f)]
@@ -1396,7 +1402,7 @@ def itemstash_rules(fb, R):
             R.check(w is None, r4, fn.q + '#buffer-position-not-used-after-compaction', fn.loc(decl['id']),
                     '%s reads a buffer position, then (possibly) compacts the buffer and uses the stale position afterwards (the offset recorded for the '
                     'item no longer points at it): %s' % (fn.q, describe_path(fn, w)))
-    for need in ('add_item', 'get_item_offset', 'clear'):
+    for need in ('add_item', 'clear'):
         if not byname.get(need):
             R.broken('ItemStash::%s not found' % need)
 
